@@ -395,7 +395,8 @@ vbi_print_page_region(vbi_page *pg, char *buf, int size,
 			vbi_char ac = pg->text[y * pg->columns + x];
 
 			if (table) {
-				if (ac.size > VBI_DOUBLE_SIZE)
+				if (ac.size > VBI_DOUBLE_SIZE
+				    || !vbi_is_print(ac.unicode))
 					ac.unicode = 0x0020;
 			} else {
 				switch (ac.size) {
